@@ -22,8 +22,11 @@ pub fn c14(ctx: &Ctx) -> Report {
     for (sig, what, case) in session_sequence_cells() {
         ctx.violation(sig, what, case, 1);
     }
+    for (sig, what, case) in odd_host_cells() {
+        ctx.violation(sig, what, case, 1);
+    }
     let r = run_matrix();
-    let mut n = r.n + n_double + ODD_CHAIN_CELLS + SESSION_SEQUENCE_CELLS;
+    let mut n = r.n + n_double + ODD_CHAIN_CELLS + SESSION_SEQUENCE_CELLS + ODD_HOST_CELLS;
     ctx.merge_outcomes(&r.outcomes);
     for (sig, what, case, rank) in r.violations {
         ctx.violation(sig, what, case, rank);
@@ -82,7 +85,7 @@ pub fn c14(ctx: &Ctx) -> Report {
     rep.set("exhaustive", true);
     rep.set(
         "rule",
-        "(both backends, 12 sequences each: one session used for several exchanges with its own setters - danger flags on and off again, a root added - called in between, direct and tunnelled: every exchange follows the settings of that moment) + (both backends, 28 cells each: the added certificate is the presented expired / not-yet-valid / other-name leaf itself, and chains with a structural fault - leaf issued by a CA:FALSE certificate, path length exceeded - under the added root, x direct/tunnelled x accept_invalid_hostnames: all must fail except the pinned other-name leaf with the name waived, which is left open) + (both backends, 64 cells each: https origin through an https proxy, two TLS layers) + (rustls only, 6 extra cells: a rustls server that presents a validly chained certificate but signs the handshake with another key must be refused whatever accept_invalid_hostnames says) + the full matrix certificate {chains to the added root, self-signed, unknown issuer, expired, not yet valid} x name {matches, differs} x accept_invalid_certs x accept_invalid_hostnames x root added x route {direct https, inside a CONNECT tunnel through an http proxy, https proxy} x where the flags/root were set {session, request, sibling request, clone of the session, session after the request was created} x host spelling {domain, 127.0.0.1, [::1]} x backend {native-tls, rustls}; every cell is one real exchange (TLS handshake + request) against local listeners; every cell is distinct",
+        "(both backends, 6 cells each: hosts with a leading dot, which OpenSSL would read as any-sub-domain patterns, direct and tunnelled) + (both backends, 12 sequences each: one session used for several exchanges with its own setters - danger flags on and off again, a root added - called in between, direct and tunnelled: every exchange follows the settings of that moment) + (both backends, 32 cells each: the added certificate is the presented expired / not-yet-valid / other-name leaf itself, and chains with a structural fault - leaf issued by a CA:FALSE certificate, path length exceeded, a SAN-less leaf under a CA whose common name is the host - under the added root, x direct/tunnelled x accept_invalid_hostnames: all must fail except the pinned other-name leaf with the name waived, which is left open) + (both backends, 64 cells each: https origin through an https proxy, two TLS layers) + (rustls only, 6 extra cells: a rustls server that presents a validly chained certificate but signs the handshake with another key must be refused whatever accept_invalid_hostnames says) + the full matrix certificate {chains to the added root, self-signed, unknown issuer, expired, not yet valid} x name {matches, differs} x accept_invalid_certs x accept_invalid_hostnames x root added x route {direct https, inside a CONNECT tunnel through an http proxy, https proxy} x where the flags/root were set {session, request, sibling request, clone of the session, session after the request was created} x host spelling {domain, 127.0.0.1, [::1]} x backend {native-tls, rustls}; every cell is one real exchange (TLS handshake + request) against local listeners; every cell is distinct",
     );
     rep.assume("X.509 path validation itself is OpenSSL's / webpki's; what is decided is that attohttpc asks for it with the right name, flags and roots on every route and in every scope");
     rep.assume("the converse (a peer satisfying the rule is accepted) is enforced as the non-vacuity half except for [::1] hosts, where both backends are handed the bracketed literal as the server name and reject it (fail-safe)");
@@ -96,6 +99,15 @@ pub fn replay(v: &Value) -> i32 {
     }
     if v["case"]["double_tls"] == true && v["case"]["backend"] != "rustls" {
         let d = double_tls_cells();
+        println!("{d:?}");
+        return if d.is_empty() { 0 } else { 1 };
+    }
+    if v["case"]["odd_host"] == true {
+        if v["case"]["backend"] == "rustls" {
+            let st = Command::new(RUSTLS_BIN).arg("--odd-host").status().expect("vh-rustls");
+            return st.code().unwrap_or(2);
+        }
+        let d = odd_host_cells();
         println!("{d:?}");
         return if d.is_empty() { 0 } else { 1 };
     }
